@@ -1302,7 +1302,8 @@ Definition ph_Rdg : bytes := [47; 82; 47; 100; 47; 103]%N.   (* /R/d/g - the sta
 Definition ph_cfg : pcfg :=
   {| pc_reader := {| c_recursive := true; c_mask := WATCHDOG_ALL; c_root := ph_R; c_fix_ignored := true;
                      c_fix_movein := true; c_fix_simulate := true;
-                     c_fix_relabel := true; c_fix_moveout := false;     (* the code before the repair of F10 *)
+                     c_fix_relabel := true;      (* irrelevant for this witness: no descriptor comes back under another path *)
+                     c_fix_moveout := false;     (* the code before the repair of F10 *)
                      c_faults := [] |};
      pc_full := false; pc_filter := None; pc_delay := 5 |}.
 
